@@ -32,8 +32,8 @@ CASE_TIMEOUT = 60
 
 def budget(tier):
     if tier == "quick":
-        return {"cases": 5000, "workers": 8, "watchdog_s": 1200}
-    return {"cases": 300000, "workers": 16, "watchdog_s": 5400}
+        return {"cases": 40000, "workers": 8, "watchdog_s": 1800}
+    return {"cases": 1600000, "workers": 16, "watchdog_s": 3600, "budget_s": 600}
 
 
 def gen_case(rng, tier):
@@ -125,7 +125,7 @@ def run_case(case):
             try:
                 rows, processed, _ = multi.evaluate(rel, db, proc)
             except Exception as exc:  # noqa: BLE001
-                out["violations"].append({"kind": "process_or_execute_raised", "detail": f"{exc_str(exc)} for {model.show(prog)} tree {short(rel, 400)} (pass {rep + 1})"})
+                out["violations"].append({"kind": "process_or_execute_raised", "mech": "KF-prune-order-loss" if multi.prune_order_loss(rel, exc) else None, "detail": f"{exc_str(exc)} for {model.show(prog)} tree {short(rel, 400)} (pass {rep + 1})"})
                 return out
             c["processed_compared"] = c.get("processed_compared", 0) + 1
             if rep > 0:
